@@ -65,8 +65,6 @@ func RunArith() {
 		nd.Reach("mul")
 		checkNumber(r, err, x*y, "mul")
 	case 3:
-		// known: xsel special-cases a zero divisor and ignores the divisor's sign and a NaN dividend
-		nd.Known("C06.div.zero-divisor", y == 0)
 		r, err := exec2("$x div $y", x, y)
 		nd.Reach("div")
 		checkNumber(r, err, x/y, "div")
@@ -82,7 +80,6 @@ func RunArith() {
 // the special classes.
 func RunMod() {
 	x, y := nd.F64(), nd.F64()
-	nd.Known("C06.mod.integer-truncation", true)
 	r, err := exec2("$x mod $y", x, y)
 	nd.Reach("mod")
 	checkNumber(r, err, math.Mod(x, y), "mod")
@@ -101,7 +98,8 @@ func RunRounding() {
 		nd.Reach("ceiling")
 		checkNumber(r, err, math.Ceil(x), "ceiling")
 	case 2:
-		nd.Known("C06.round.ties-zero-large", true)
+		// recorded finding: ties below zero round away from zero (pinned by TestFunctionRound)
+		nd.Known("C06.round.negative-tie", nd.And(x < 0, x-math.Floor(x) == 0.5))
 		r, err := exec2("round($x)", x, 0)
 		nd.Reach("round")
 		checkNumber(r, err, spec.Round(x), "round")
@@ -126,7 +124,6 @@ func RunSum() {
 	ev = append(ev, hx.Event{End: true})
 	doc, err := hx.Build(ev)
 	nd.Assert(err == nil, "sum.build")
-	nd.Known("C06.sum.truncation", true)
 	r, err := xsel.Exec(doc, exprs["sum(/r/*)"])
 	nd.Reach("sum")
 	checkNumber(r, err, want, "sum")
